@@ -178,23 +178,32 @@ func H18_teardown_after_delivery() {
 // connection publishes to the subscribed topic.
 func H18_resume() {
 	b := vrtBroker("mockSuccess")
-	s, _ := b.connect(vrtConnectPkt([]byte("s"), false))
+	swill := vrtWill{flag: true, qos: 1, topic: []byte("t"), payload: []byte("the will of the first connection")}
+	s, _ := b.connect(vrtConnectWithWill([]byte("s"), false, swill))
 	vrtExchange(s, &specPkt{Typ: specSUBSCRIBE, ID: 1, Topics: [][]byte{[]byte("t")}, QoS: []byte{1}})
 	p, _ := b.connect(vrtConnectPkt([]byte("p"), true))
-	takeover := vrtBool("old_connection_still_open") // the same client id connects again while its old connection is still up
-	if !takeover {
+	w2, _ := b.connect(vrtConnectPkt([]byte("w2"), true))
+	vrtExchange(w2, &specPkt{Typ: specSUBSCRIBE, ID: 1, Topics: [][]byte{[]byte("t")}, QoS: []byte{1}})
+	// the same client id connects again after its old connection ended, while it is still up, or while it
+	// is just being torn down after a network drop (its will is being published)
+	mode := vrtChoice("old_connection", 3)
+	takeover := mode == 1
+	switch mode {
+	case 0:
 		if vrtBool("disconnect") {
 			vrtExchange(s, &specPkt{Typ: specDISCONNECT})
 		}
 		s.peerClose()
 		vrtQuiesce()
+	case 2:
+		s.peerClose() // no waiting: the teardown overlaps with the new CONNECT
 	}
 	c := b.open()
 	if vrtBool("publish_first") {
 		p.peerSend(specEncode(&specPkt{Typ: specPUBLISH, Flags: 2, ID: 1, Topic: []byte("t"), Payload: []byte("1")}))
-		c.peerSend(specEncode(vrtConnectPkt([]byte("s"), false)))
+		c.peerSend(specEncode(vrtConnectWithWill([]byte("s"), false, vrtWill{flag: true, qos: 1, topic: []byte("t"), payload: []byte("second")})))
 	} else {
-		c.peerSend(specEncode(vrtConnectPkt([]byte("s"), false)))
+		c.peerSend(specEncode(vrtConnectWithWill([]byte("s"), false, vrtWill{flag: true, qos: 1, topic: []byte("t"), payload: []byte("second")})))
 		p.peerSend(specEncode(&specPkt{Typ: specPUBLISH, Flags: 2, ID: 1, Topic: []byte("t"), Payload: []byte("1")}))
 	}
 	vrtQuiesce()
